@@ -158,7 +158,7 @@ def runEval (c obs : String) : String × String × Bool :=
           | ["lose", t] => okNow := okNow.filter (· != toNat! t)
           | ["end", t, o] =>
             let t := toNat! t
-            if o == "o" then
+            if o == "o" || o == "s" then
               everOk := t :: everOk
               okNow := t :: okNow
               consec := upsert t 0 consec
